@@ -234,11 +234,23 @@ def run(ctx):
     if ab is None:
         chk.violation("R05.7", "anchor:append_after", "UnaryOpWithReprs::append_after not found")
     else:
-        ch = [c for c in acalls if c[0] == "std::iter::Iterator::chain"]
-        fo = [c for c in acalls if c[0].endswith("UnaryOp::<T>::append_after")]
-        names_other_first = len(ch) == 1 and "param:other" in ch[0][1][0] and "param:self" in ch[0][1][1]
-        fn_ok = len(fo) == 1 and fo[0][1] == ["param:self.op", "param:other.op"]
+        from analysis import loops
+
+        class PSeq(Policy):
+            loop_mode = "widen"
+            max_depth = 4
+        allp = Interp(fb, PSeq()).run(ab, [Sym("self_"), Sym("other")])
+        ps = [p for p in allp if p.status not in ("unreachable", "loop-pruned")]
+        seqs, fn_ok = [], True
+        for p in ps:
+            hv = [v for k, v in p.heap.items() if k[0] == ("sym", "self_") and k[1] == ("f", "reprs")]
+            seqs.append(loops.seq_parts(hv[0], p, ab["path"], 0, allp) if p.status == "return" and len(hv) == 1 else [("?", p.status)])
+            fo = [e for e in p.events if e[0] == "call" and e[1].endswith("UnaryOp::<T>::append_after")]
+            if not (len(fo) == 1 and [show(x) for x in fo[0][2]] == [".op(self_)", ".op(other)"]):
+                fn_ok = False
+        full = max(seqs, key=len) if seqs else []
+        names_other_first = full == [("src", ".reprs(other)", "fwd"), ("src", ".reprs(self_)", "fwd")] and all(s == full or s == [] for s in seqs)
         if names_other_first and fn_ok:
-            chk.ok("R05.7", "append_after prepends the other composition's names and functions alike", "", loc(ab["span"]))
+            chk.ok("R05.7", "append_after prepends the other composition's names and functions alike", str(full), loc(ab["span"]))
         else:
-            chk.violation("R05.7", "misaligned:append_after", "append_after does not add the names in the same place as the functions (functions: new ones first, C01 R01.7)", loc(ab["span"]))
+            chk.violation("R05.7", "misaligned:append_after", "append_after does not add the names in the same place as the functions (functions: new ones first, C01 R01.7): names %s" % seqs[:2], loc(ab["span"]))
